@@ -91,6 +91,7 @@ func TestC15Rollover(t *testing.T) {
 		// under link-layer sessions derived the way the peering handshake does
 		// (link frames only use the regular class).
 		linkMode := c.Weighted("carrier", 2, 1) == 1
+		var parents []*state.EncryptionSession
 		if linkMode {
 			ea, eb := state.NewEncryptionSession(), state.NewEncryptionSession()
 			kx1, kxT1, err := ea.InitKeyClientStart()
@@ -109,6 +110,7 @@ func TestC15Rollover(t *testing.T) {
 			if err1 != nil || err2 != nil {
 				c.Fatalf("derive link sessions: %v %v", err1, err2)
 			}
+			parents = []*state.EncryptionSession{ea, eb}
 			dirs[0].sendE, dirs[0].recvE = la, lb
 			dirs[1].sendE, dirs[1].recvE = lb, la
 		} else {
@@ -137,6 +139,20 @@ func TestC15Rollover(t *testing.T) {
 			}
 		}
 		seen := map[string]string{} // key|class|seq -> description
+		if linkMode {
+			// The sessions the link sessions were derived from carry frames of
+			// their own (the routers' end-to-end traffic): their numbers count too.
+			for pi, pe := range parents {
+				ph := state.EncryptionSessionTestHelper{EncryptionSession: pe}
+				for k := 0; k < 3; k++ {
+					seq, _, _, _, err := pe.Out(false)
+					if err != nil {
+						c.Fatalf("parent session %d: %v", pi, err)
+					}
+					seen[fmt.Sprintf("%s|%d|%d", hex.EncodeToString(ph.OutKey()), 0, seq)] = fmt.Sprintf("frame %d of the session link session %d was derived from", k+1, pi)
+				}
+			}
+		}
 		addrs := [2][2]*vnet.Party{{pa, pb}, {pb, pa}}
 		nt := false
 		prioBothAroundWrap := [2]bool{}
